@@ -75,7 +75,7 @@ pub fn run(args: &Args) -> Report {
     }
     let dynamic_tpl: Option<Value> = seeds.iter().find_map(|(_, v)| v.get("dynamic_params").filter(|d| !d.is_null()).cloned());
     let static_tpl = seeds.iter().find(|(_, v)| v.get("dynamic_params").is_none()).map(|(_, v)| v.clone()).unwrap_or(seeds[0].1.clone());
-    let n_rand = if thorough { 300 } else { 24 };
+    let n_rand = if thorough { 200 } else { 24 };
     let mut r = base.fork("rand");
     for k in 0..n_rand {
         let use_dyn = dynamic_tpl.is_some() && k % 6 == 5;
@@ -196,6 +196,12 @@ pub fn run(args: &Args) -> Report {
             let Some(orig) = mutate::leaf_big(cur) else { continue };
             let class = path_class(l);
             let in_statement = !class.ends_with(".prod");
+            // thorough: every leaf, except on pages of more than 120 cells, where ~240 of the page's
+            // leaves are drawn (each variant re-hashes the whole page: the cost is quadratic in its size)
+            let n_cells = pi0.main_page.len() as u64;
+            if thorough && class.contains("main_page") && n_cells > 120 && rng.below(n_cells) >= 120 {
+                continue;
+            }
             for delta in [1u64, 2] {
                 let mut v = v0.clone();
                 if mutate::set_leaf(&mut v, l, &(&orig + BigUint::from(delta))) {
@@ -247,7 +253,7 @@ pub fn run(args: &Args) -> Report {
         }
         // main page: insertion, deletion, adjacent transposition at every position
         let n = pi0.main_page.len();
-        let cap = if thorough { usize::MAX } else { 40 };
+        let cap = if thorough { 200 } else { 40 };
         let positions: Vec<usize> = if n <= cap { (0..=n).collect() } else { let mut p: Vec<usize> = (0..=n).collect(); rng.shuffle(&mut p); p.truncate(cap); p };
         for &i in &positions {
             let mut v = v0.clone();
